@@ -26,8 +26,13 @@ def units(tier):
     return relabel.units()
 
 
-def bounded(tier, seed):
+def _bounded(tier, seed):
     from pyvc.native_bridge import bounded_pure
     return [bounded_pure(tier, "c13", "c13", "all arrays 2x3 over labels 0..2 (quick) / 0..3 (thorough) x all <=3 detections x all id assignments from {0,1,2,3,7}", seed, exhaustive=True),
             bounded_pure(tier, "c13b", "c13-builder-path", "tracks_from_df with a seg_id column: <=3 detections in 2 frames, labels 1..3, ids from {0,1,2,3,7}, with/without an unlisted label; "
                          "quick: every case where all labels are also node ids (where a shortcut could skip relabelling) + 250 sampled others; thorough: all", seed, exhaustive=(tier == "thorough"))]
+
+
+def bounded(tier, seed):
+    from ._common import model_checks
+    return _bounded(tier, seed) + model_checks(tier, "numpy,networkx", shape=False, seed=seed)
